@@ -1,6 +1,111 @@
-//! C16: not implemented yet.
+//! C16: Merkle tree / proof generation / proof playback.
+//! kinds:
+//!  {k:"tree",  leaves:[hex], m, idx:[i..]}  -> layers, row index, proofs + verdicts for the listed indices
+//!  {k:"sweep", leaves:[hex], mmax}          -> for every m in 0..=mmax and every index: verdict bits and proof lengths
+//!  {k:"check", count, row:[hex], checks:[{h:hex, loc:u64|string, proof:null|[hex]}]} -> verdicts of check_merkle_tree
+use c2pa::{
+    assertions::{MerkleMap, VecByteBuf},
+    verif_hooks::c16::{ByteBuf, C2PAMerkleTree, MerkleNode},
+};
 use serde_json::{json, Value};
 
-pub fn run(_case: &Value) -> Value {
-    json!({"r": "unimplemented"})
+use crate::util::*;
+
+fn hexlist(v: &Value) -> Vec<Vec<u8>> {
+    v.as_array().map(|a| a.iter().map(hexd).collect()).unwrap_or_default()
+}
+
+fn mm(count: usize, row: &[Vec<u8>]) -> MerkleMap {
+    MerkleMap {
+        unique_id: 0,
+        local_id: 0,
+        count,
+        alg: Some("sha256".to_string()),
+        init_hash: None,
+        hashes: VecByteBuf(row.iter().map(|h| ByteBuf::from(h.clone())).collect()),
+        fixed_block_size: None,
+        variable_block_sizes: None,
+    }
+}
+
+fn vbb(p: &[Vec<u8>]) -> VecByteBuf {
+    VecByteBuf(p.iter().map(|h| ByteBuf::from(h.clone())).collect())
+}
+
+// exactly what create_merkle_map_for_mdat_box does with a generated proof
+fn wrap(p: &[Vec<u8>]) -> Option<VecByteBuf> {
+    if p.is_empty() {
+        None
+    } else {
+        Some(vbb(p))
+    }
+}
+
+pub fn run(case: &Value) -> Value {
+    let alg = case["alg"].as_str().unwrap_or("sha256");
+    match case["k"].as_str().unwrap_or("") {
+        "tree" | "sweep" => {
+            let leaves: Vec<MerkleNode> = hexlist(&case["leaves"]).into_iter().map(MerkleNode).collect();
+            let n = leaves.len();
+            let tree = C2PAMerkleTree::from_leaves(leaves, alg, false);
+            let layout = C2PAMerkleTree::to_layout(n);
+            if case["k"] == "tree" {
+                let m = u64_of(&case["m"]) as usize;
+                let r = std::cmp::min(m, tree.layers.len() - 1);
+                let row: Vec<Vec<u8>> = tree.layers[r].iter().map(|x| x.0.clone()).collect();
+                let map = mm(n, &row);
+                let mut proofs = vec![];
+                for i in case["idx"].as_array().cloned().unwrap_or_default() {
+                    let i = u64_of(&i) as usize;
+                    match tree.get_proof_by_index(i, m) {
+                        Ok(p) => {
+                            let h = tree.leaves.get(i).map(|x| x.0.clone()).unwrap_or_default();
+                            let some = map.check_merkle_tree(alg, &h, i, &Some(vbb(&p)));
+                            let wr = map.check_merkle_tree(alg, &h, i, &wrap(&p));
+                            proofs.push(json!({"i": i, "p": p.iter().map(|x| hexe(x)).collect::<Vec<_>>(), "some": some, "wrap": wr}));
+                        }
+                        Err(e) => proofs.push(json!({"i": i, "err": err_class(&e)})),
+                    }
+                }
+                let layers: Vec<Vec<String>> = tree.layers.iter().map(|l| l.iter().map(|x| hexe(&x.0)).collect()).collect();
+                json!({"r": "ok", "layers": layers, "layout": layout, "row": r, "proofs": proofs})
+            } else {
+                let mmax = u64_of(&case["mmax"]) as usize;
+                let mut some = vec![];
+                let mut wr = vec![];
+                let mut plen = vec![];
+                for m in 0..=mmax {
+                    let r = std::cmp::min(m, tree.layers.len() - 1);
+                    let row: Vec<Vec<u8>> = tree.layers[r].iter().map(|x| x.0.clone()).collect();
+                    let map = mm(n, &row);
+                    let (mut s, mut w, mut l) = (String::new(), String::new(), vec![]);
+                    for i in 0..n {
+                        let p = tree.get_proof_by_index(i, m).expect("proof");
+                        let h = &tree.leaves[i].0;
+                        s.push(if map.check_merkle_tree(alg, h, i, &Some(vbb(&p))) { '1' } else { '0' });
+                        w.push(if map.check_merkle_tree(alg, h, i, &wrap(&p)) { '1' } else { '0' });
+                        l.push(p.len());
+                    }
+                    some.push(s);
+                    wr.push(w);
+                    plen.push(l);
+                }
+                json!({"r": "ok", "some": some, "wrap": wr, "plen": plen, "layout": layout})
+            }
+        }
+        "check" => {
+            let count = u64_of(&case["count"]) as usize;
+            let row = hexlist(&case["row"]);
+            let map = mm(count, &row);
+            let mut out = vec![];
+            for c in case["checks"].as_array().cloned().unwrap_or_default() {
+                let h = hexd(&c["h"]);
+                let loc = u64_of(&c["loc"]) as usize;
+                let proof = if c["proof"].is_null() { None } else { Some(vbb(&hexlist(&c["proof"]))) };
+                out.push(map.check_merkle_tree(alg, &h, loc, &proof));
+            }
+            json!({"r": "ok", "v": out})
+        }
+        _ => json!({"r": "badcase"}),
+    }
 }
